@@ -449,3 +449,66 @@ func factsSender() {
 	constFact(g, "closingSession", mx, "closingSession")
 }
 
+// ---------- the payload of a closing frame is never empty ----------
+//
+// obfuscate refuses an empty payload ("payload cannot be empty"): a closing frame (stream close, session notice, refusal)
+// whose random padding came out empty would not be sent at all - the peer would wait for ever on a stream that was closed.
+// Every place that builds such a payload must draw `int(<random byte>) + 1` bytes.
+
+func init() { register(factsClosingPad) }
+
+func factsClosingPad() {
+	g := "Sender"
+	re := regexp.MustCompile(`^int\(\(?\*?\w+\)?\[0\]\) \+ 1$`)
+	sites, good := 0, 0
+	var bad []string
+	helpers := map[string]bool{} // functions (by bare name) that hold a site
+	for name, f := range pkgs[mx].funcs {
+		if f.Body == nil || name == "Session.obfuscate" || strings.HasPrefix(name, "Obfuscator.") || strings.HasPrefix(name, "MakeObfuscator") {
+			continue
+		}
+		usesClosing := strings.Contains(show(f.Body), "closingStream") || strings.Contains(show(f.Body), "closingSession")
+		ast.Inspect(f.Body, func(n ast.Node) bool {
+			a, ok := n.(*ast.AssignStmt)
+			if !ok || len(a.Lhs) != 1 || len(a.Rhs) != 1 || show(a.Lhs[0]) != "padLen" {
+				return true
+			}
+			if !strings.Contains(show(a.Rhs[0]), "[0]") {
+				return true // not a length drawn from a random byte (obfuscate's own padLen is C04's)
+			}
+			sites++
+			helpers[name[strings.LastIndex(name, ".")+1:]] = true
+			if re.MatchString(show(a.Rhs[0])) {
+				good++
+			} else {
+				bad = append(bad, name+": padLen := "+show(a.Rhs[0]))
+			}
+			return true
+		})
+		_ = usesClosing
+	}
+	// every function that builds a closing frame must reach one of those sites itself (not through a helper we cannot see into)
+	builders := 0
+	for _, key := range []string{"Session.closeStream", "Session.Close", "Session.tellRefusals"} {
+		f := fnOf(mx, key)
+		viaHelper := false
+		if f != nil {
+			for h := range helpers {
+				if regexp.MustCompile(`\b` + regexp.QuoteMeta(h) + `\(`).MatchString(show(f.Body)) {
+					viaHelper = true
+				}
+			}
+		}
+		if f != nil && (strings.Contains(show(f.Body), "padLen :=") || viaHelper) {
+			builders++
+		} else if f == nil && key == "Session.tellRefusals" {
+			builders++ // a tree without the refusal teller
+		}
+	}
+	sort.Strings(bad)
+	src := fmt.Sprintf("closing-frame payloads: %d site(s) `padLen := int(<byte>) + 1`, reached by closeStream, Session.Close and tellRefusals (directly or through a helper that holds the site)", good)
+	if len(bad) > 0 {
+		src = "a closing-frame payload length that can be 0: " + strings.Join(bad, "; ")
+	}
+	boolFact(g, "closingPayloadNeverEmpty", sites > 0 && good == sites && builders == 3, src)
+}
